@@ -1242,6 +1242,12 @@ fn miri_case(prop: &str, scenario: &str, seed: u64, run: u64, max_ops: usize, fo
                 cut(r);
                 cut(q);
             }
+            Op::Preempt { r, q, r2, q2, .. } => {
+                cut(r);
+                cut(q);
+                cut(r2);
+                cut(q2);
+            }
             _ => {}
         }
     }
